@@ -25,6 +25,7 @@ type bridgeChecks struct {
 	hasAccepted    map[string]map[string]bool
 
 	// C05 / C06 / C13 / C04 models live in their own files
+	pendingViol []Violation
 	c05 *c05Model
 	c06 *c06Model
 	c13 *c13Model
@@ -147,6 +148,15 @@ func (e BridgeEngine) Check(r *Run, s *Step, o *Outcome) []Violation {
 	// model bookkeeping that several oracles share runs for every property
 	c.trackCommon(r, s, o)
 	var vs []Violation
+	if o == nil {
+		o = &Outcome{}
+	}
+	// the life-cycle model is shared (C04, C06 read it); its own violations count only for C05
+	nt := r.Nontrivial
+	v05 := c.c05.check(r, c, s, o)
+	if r.Prop != "C05" {
+		r.Nontrivial = nt
+	}
 	switch r.Prop {
 	case "C07":
 		c.probeC07(r, s, o)
@@ -159,7 +169,7 @@ func (e BridgeEngine) Check(r *Run, s *Step, o *Outcome) []Violation {
 	case "C04":
 		vs = c.c04.check(r, c, s, o)
 	case "C05":
-		vs = c.c05.check(r, c, s, o)
+		vs = v05
 	case "C06":
 		vs = c.c06.check(r, c, s, o)
 	case "C12":
